@@ -380,5 +380,450 @@ theorem parseDiseaseComponents_render (db id name q hpo tail : List Char) (c0 : 
   · simp only [hn, if_false]
     cases TermId.parse hpo <;> rfl
 
+/-! ### `lines` -/
+
+theorem stripCr_noCr (l : List Char) (h : '\r' ∉ l) : stripCr l = l := by
+  induction l with
+  | nil => rfl
+  | cons x xs ih =>
+    have hx : x ≠ '\r' := fun e => h (by simp [e])
+    have hxs : '\r' ∉ xs := fun e => h (by simp [e])
+    cases xs with
+    | nil => simp [stripCr, hx]
+    | cons y ys => simp [stripCr, ih hxs]
+
+theorem linesOf_id (ls : List (List Char)) (h : ∀ l ∈ ls, '\r' ∉ l ∧ l ≠ []) : linesOf ls = ls := by
+  induction ls with
+  | nil => rfl
+  | cons l r ih =>
+    cases r with
+    | nil =>
+      have := (h l (by simp)).2
+      simp [linesOf, this]
+    | cons m r' =>
+      simp only [linesOf]
+      rw [stripCr_noCr l (h l (by simp)).1, ih (fun x hx => h x (by simp [hx]))]
+
+/-- `lines()` returns exactly the lines that were joined with `\n` (non-empty, without `\n`, `\r`) -/
+theorem lines_joinWith (ls : List (List Char)) (hne : ls ≠ [])
+    (h : ∀ l ∈ ls, '\n' ∉ l ∧ '\r' ∉ l ∧ l ≠ []) : lines (joinWith '\n' ls) = ls := by
+  unfold lines
+  rw [splitOnChar_joinWith '\n' ls hne (fun l hl => (h l hl).1)]
+  exact linesOf_id ls (fun l hl => (h l hl).2)
+
+/-! ### `[Term]` stanzas -/
+
+def kIsa : List Char := ['i', 's', '_', 'a']
+
+/-- a `key: value` line -/
+def kvLine (k v : List Char) : List Char := k ++ colonSp ++ v
+
+/-- `is_a: HP:0000001 ! label` -/
+def isaLine (p : Nat × List Char) : List Char :=
+  isaPrefix ++ (TermId.render p.1 ++ ' ' :: '!' :: ' ' :: p.2)
+
+/-- a key the loader does not look at (alt_id, def, comment, synonym, xref, created_by, …) -/
+def Neutral (k : List Char) : Prop :=
+  ':' ∉ k ∧ k ≠ kId ∧ k ≠ kName ∧ k ≠ kObsolete ∧ k ≠ kReplaced ∧ k ≠ kIsa
+
+/-- the loader-relevant tags after the `is_a` lines -/
+def tailPairs (obs : Bool) (repl : Option Nat) (extras2 : List (List Char × List Char)) :
+    List (List Char × List Char) :=
+  (if obs then [(kObsolete, kTrue)] else []) ++
+    ((match repl with
+      | some r => [(kReplaced, TermId.render r)]
+      | none => []) ++ extras2)
+
+/-- the lines of a JAX `[Term]` stanza: id, name, other tags, one `is_a` line per parent (with its
+label), `is_obsolete: true`, `replaced_by`, more other tags -/
+def stanzaLines (id : Nat) (name : List Char) (obs : Bool) (repl : Option Nat)
+    (parents : List (Nat × List Char)) (extras1 extras2 : List (List Char × List Char)) : List (List Char) :=
+  (((kId, TermId.render id) :: (kName, name) :: extras1).map fun e => kvLine e.1 e.2)
+    ++ (parents.map isaLine ++ (tailPairs obs repl extras2).map fun e => kvLine e.1 e.2)
+
+def renderStanza (id : Nat) (name : List Char) (obs : Bool) (repl : Option Nat)
+    (parents : List (Nat × List Char)) (extras1 extras2 : List (List Char × List Char)) : List Char :=
+  termPrefix ++ joinWith '\n' (stanzaLines id name obs repl parents extras1 extras2)
+
+theorem scanFields_append (a b : List (List Char)) (f : Fields) :
+    scanFields (a ++ b) f = (scanFields a f).bind (scanFields b) := by
+  induction a generalizing f with
+  | nil => rfl
+  | cons l ls ih =>
+    simp only [List.cons_append, scanFields]
+    cases splitOnceStr colonSp l with
+    | none => rfl
+    | some p => exact ih _
+
+theorem scanFields_kv (k v : List Char) (hk : ':' ∉ k) (ls : List (List Char)) (f : Fields) :
+    scanFields (kvLine k v :: ls) f = scanFields ls (f.set k v) := by
+  simp only [scanFields, kvLine, splitOnceStr_colonSp k v hk]
+
+theorem set_neutral (f : Fields) (k v : List Char) (h : Neutral k) : f.set k v = f := by
+  obtain ⟨_, h1, h2, h3, h4, _⟩ := h
+  simp [Fields.set, h1, h2, h3, h4]
+
+theorem scanFields_neutral (es : List (List Char × List Char)) (h : ∀ e ∈ es, Neutral e.1)
+    (ls : List (List Char)) (f : Fields) :
+    scanFields ((es.map fun e => kvLine e.1 e.2) ++ ls) f = scanFields ls f := by
+  induction es with
+  | nil => rfl
+  | cons e r ih =>
+    simp only [List.map_cons, List.cons_append]
+    rw [scanFields_kv _ _ (h e (by simp)).1, set_neutral f _ _ (h e (by simp))]
+    exact ih (fun x hx => h x (by simp [hx]))
+
+theorem isaLine_eq (p : Nat × List Char) :
+    isaLine p = kvLine kIsa (TermId.render p.1 ++ ' ' :: '!' :: ' ' :: p.2) := by
+  simp [isaLine, kvLine, isaPrefix, kIsa, colonSp]
+
+theorem scanFields_isa (ps : List (Nat × List Char)) (ls : List (List Char)) (f : Fields) :
+    scanFields (ps.map isaLine ++ ls) f = scanFields ls f := by
+  induction ps with
+  | nil => rfl
+  | cons p r ih =>
+    simp only [List.map_cons, List.cons_append]
+    rw [isaLine_eq, scanFields_kv _ _ (by decide)]
+    have : f.set kIsa (TermId.render p.1 ++ ' ' :: '!' :: ' ' :: p.2) = f := by
+      simp [Fields.set, kIsa, kId, kName, kObsolete, kReplaced]
+    rw [this]; exact ih
+
+/-- a `key: value` line is an `is_a: ` line only if its key is `is_a` -/
+theorem stripPrefix_isa_kv (k v : List Char) (hc : ':' ∉ k) (hk : k ≠ kIsa) :
+    stripPrefix isaPrefix (kvLine k v) = none := by
+  have gen : ∀ (p k : List Char), ':' ∉ p → ':' ∉ k → k ≠ p →
+      stripPrefix (p ++ colonSp) (k ++ colonSp ++ v) = none := by
+    intro p
+    induction p with
+    | nil =>
+      intro k _ hk hne
+      cases k with
+      | nil => exact absurd rfl hne
+      | cons b k' =>
+        have : ¬ (':' = b) := fun e => hk (by simp [← e])
+        simp [stripPrefix, colonSp, this]
+    | cons a p' ih =>
+      intro k hp hk hne
+      cases k with
+      | nil =>
+        have : ¬ (a = ':') := fun e => hp (by simp [e])
+        simp [stripPrefix, colonSp, this]
+      | cons b k' =>
+        by_cases hab : a = b
+        · subst hab
+          have := ih k' (fun e => hp (by simp [e])) (fun e => hk (by simp [e])) (fun e => hne (by simp [e]))
+          simpa [stripPrefix] using this
+        · simp [stripPrefix, hab]
+  have := gen kIsa k (by decide) hc hk
+  simpa [kvLine, isaPrefix, kIsa, colonSp] using this
+
+theorem isaParents_skip (es : List (List Char × List Char)) (h : ∀ e ∈ es, ':' ∉ e.1 ∧ e.1 ≠ kIsa)
+    (ls : List (List Char)) :
+    isaParents ((es.map fun e => kvLine e.1 e.2) ++ ls) = isaParents ls := by
+  induction es with
+  | nil => rfl
+  | cons e r ih =>
+    simp only [List.map_cons, List.cons_append, isaParents]
+    rw [stripPrefix_isa_kv _ _ (h e (by simp)).1 (h e (by simp)).2]
+    exact ih (fun x hx => h x (by simp [hx]))
+
+theorem space_digitVal : TermId.digitVal ' ' = none := by decide
+
+theorem isaParents_isa (ps : List (Nat × List Char)) (h : ∀ p ∈ ps, p.1 < 4294967296)
+    (ls : List (List Char)) :
+    isaParents (ps.map isaLine ++ ls) = (isaParents ls).bind fun r => .ok (ps.map (·.1) ++ r) := by
+  induction ps with
+  | nil => simp only [List.map_nil, List.nil_append]; cases isaParents ls <;> rfl
+  | cons p r ih =>
+    simp only [List.map_cons, List.cons_append, isaParents]
+    rw [show isaLine p = isaPrefix ++ (TermId.render p.1 ++ ' ' :: ('!' :: ' ' :: p.2)) from rfl,
+      stripPrefix_append]
+    simp only []
+    rw [splitOnce_append ' ' _ _ (not_mem_render p.1 ' ' space_digitVal (by decide) (by decide) (by decide))]
+    simp only [parse_render p.1 (h p (by simp))]
+    rw [ih (fun x hx => h x (by simp [hx]))]
+    cases isaParents ls <;> rfl
+
+/-- a well-formed line: no line break inside, not empty -/
+def LineOk (l : List Char) : Prop := '\n' ∉ l ∧ '\r' ∉ l ∧ l ≠ []
+
+theorem LineOk_kv (k v : List Char) (hk : LineOk k) (hv : '\n' ∉ v ∧ '\r' ∉ v) : LineOk (kvLine k v) := by
+  obtain ⟨h1, h2, h3⟩ := hk
+  refine ⟨?_, ?_, ?_⟩
+  · simp [kvLine, colonSp, h1, hv.1]
+  · simp [kvLine, colonSp, h2, hv.2]
+  · simp [kvLine, h3]
+
+theorem lineOk_kId : LineOk kId := ⟨by decide, by decide, by decide⟩
+theorem lineOk_kName : LineOk kName := ⟨by decide, by decide, by decide⟩
+theorem lineOk_kObsolete : LineOk kObsolete := ⟨by decide, by decide, by decide⟩
+theorem lineOk_kReplaced : LineOk kReplaced := ⟨by decide, by decide, by decide⟩
+theorem lineOk_kIsa : LineOk kIsa := ⟨by decide, by decide, by decide⟩
+theorem isaOk_kId : ':' ∉ kId ∧ kId ≠ kIsa := ⟨by decide, by decide⟩
+theorem isaOk_kName : ':' ∉ kName ∧ kName ≠ kIsa := ⟨by decide, by decide⟩
+theorem isaOk_kObsolete : ':' ∉ kObsolete ∧ kObsolete ≠ kIsa := ⟨by decide, by decide⟩
+theorem isaOk_kReplaced : ':' ∉ kReplaced ∧ kReplaced ≠ kIsa := ⟨by decide, by decide⟩
+
+theorem nl_digitVal : TermId.digitVal '\n' = none := by decide
+theorem cr_digitVal : TermId.digitVal '\r' = none := by decide
+
+theorem render_noBreak (n : Nat) : '\n' ∉ TermId.render n ∧ '\r' ∉ TermId.render n :=
+  ⟨not_mem_render n '\n' nl_digitVal (by decide) (by decide) (by decide),
+   not_mem_render n '\r' cr_digitVal (by decide) (by decide) (by decide)⟩
+
+theorem LineOk_isa (p : Nat × List Char) (h : '\n' ∉ p.2 ∧ '\r' ∉ p.2) : LineOk (isaLine p) := by
+  rw [isaLine_eq]
+  refine LineOk_kv _ _ lineOk_kIsa ⟨?_, ?_⟩
+  · simp [(render_noBreak p.1).1, h.1]
+  · simp [(render_noBreak p.1).2, h.2]
+
+/-- the side conditions on the free text of a stanza: no line breaks in names, labels, other tags;
+the other tags have keys the loader ignores -/
+structure StanzaOk (name : List Char) (parents : List (Nat × List Char))
+    (extras1 extras2 : List (List Char × List Char)) : Prop where
+  name : '\n' ∉ name ∧ '\r' ∉ name
+  labels : ∀ p ∈ parents, '\n' ∉ p.2 ∧ '\r' ∉ p.2
+  extras : ∀ e ∈ extras1 ++ extras2, Neutral e.1 ∧ LineOk e.1 ∧ '\n' ∉ e.2 ∧ '\r' ∉ e.2
+
+theorem stanzaLines_ok (id : Nat) (name : List Char) (obs : Bool) (repl : Option Nat)
+    (parents : List (Nat × List Char)) (extras1 extras2 : List (List Char × List Char))
+    (hok : StanzaOk name parents extras1 extras2) :
+    ∀ l ∈ stanzaLines id name obs repl parents extras1 extras2, LineOk l := by
+  intro l hl
+  have hex : ∀ e, e ∈ extras1 ∨ e ∈ extras2 → LineOk (kvLine e.1 e.2) := by
+    intro e he
+    have := hok.extras e (List.mem_append.2 he)
+    exact LineOk_kv _ _ this.2.1 this.2.2
+  simp only [stanzaLines, tailPairs, List.mem_append, List.mem_map, List.mem_cons] at hl
+  rcases hl with ⟨e, (rfl | rfl | he), rfl⟩ | ⟨p, hp, rfl⟩ | ⟨e, (he | he | he), rfl⟩
+  · exact LineOk_kv _ _ lineOk_kId (render_noBreak id)
+  · exact LineOk_kv _ _ lineOk_kName hok.name
+  · exact hex e (Or.inl he)
+  · exact LineOk_isa p (hok.labels p hp)
+  · cases obs <;> simp at he
+    subst he; exact LineOk_kv _ _ lineOk_kObsolete ⟨by decide, by decide⟩
+  · cases repl <;> simp at he
+    subst he; exact LineOk_kv _ _ lineOk_kReplaced (render_noBreak _)
+  · exact hex e (Or.inr he)
+
+theorem isaParents_pairs_nil (es : List (List Char × List Char)) (h : ∀ e ∈ es, ':' ∉ e.1 ∧ e.1 ≠ kIsa) :
+    isaParents (es.map fun e => kvLine e.1 e.2) = .ok [] := by
+  have := isaParents_skip es h []
+  simpa [isaParents] using this
+
+theorem neutral_isa (k : List Char) (h : Neutral k) : ':' ∉ k ∧ k ≠ kIsa := ⟨h.1, h.2.2.2.2.2⟩
+
+/-- `parse_block` on a rendered `[Term]` stanza returns the term (id, name, obsolete flag,
+replacement) and the parent ids in line order -/
+theorem parseBlock_stanza (id : Nat) (name : List Char) (obs : Bool) (repl : Option Nat)
+    (parents : List (Nat × List Char)) (extras1 extras2 : List (List Char × List Char))
+    (hid : id < 4294967296) (hrepl : ∀ r, repl = some r → r < 4294967296)
+    (hpar : ∀ p ∈ parents, p.1 < 4294967296) (hok : StanzaOk name parents extras1 extras2) :
+    parseBlock (renderStanza id name obs repl parents extras1 extras2) =
+      .ok (.term { id := id, name := name, obsolete := obs, replacement := repl } (parents.map (·.1))) := by
+  have hlines : lines (joinWith '\n' (stanzaLines id name obs repl parents extras1 extras2)) =
+      stanzaLines id name obs repl parents extras1 extras2 :=
+    lines_joinWith _ (by simp [stanzaLines]) (stanzaLines_ok id name obs repl parents extras1 extras2 hok)
+  have hn1 : ∀ e ∈ extras1, Neutral e.1 := fun e he => (hok.extras e (by simp [he])).1
+  have hn2 : ∀ e ∈ extras2, Neutral e.1 := fun e he => (hok.extras e (by simp [he])).1
+  -- the four variables after the scan
+  have hscan : scanFields (stanzaLines id name obs repl parents extras1 extras2) {} =
+      .ok { id := some (TermId.render id), name := some name,
+            obsolete := if obs then some kTrue else none,
+            replaced := repl.map TermId.render } := by
+    unfold stanzaLines
+    simp only [List.map_cons, List.cons_append]
+    rw [scanFields_kv _ _ isaOk_kId.1, scanFields_kv _ _ isaOk_kName.1,
+      scanFields_neutral extras1 hn1, scanFields_isa]
+    unfold tailPairs
+    have e2 : ∀ f : Fields, scanFields (extras2.map fun e => kvLine e.1 e.2) f = .ok f := by
+      intro f
+      have := scanFields_neutral extras2 hn2 [] f
+      simpa [scanFields] using this
+    cases obs <;> cases repl <;>
+      simp [scanFields_kv, e2, Fields.set, kId, kName, kObsolete, kReplaced]
+  have hterm : termFromObo (stanzaLines id name obs repl parents extras1 extras2) =
+      .ok (some { id := id, name := name, obsolete := obs, replacement := repl }) := by
+    unfold termFromObo
+    rw [hscan]
+    cases repl with
+    | none => cases obs <;> simp [Res.bind, fieldsTerm, parse_render id hid, kTrue]
+    | some r => cases obs <;> simp [Res.bind, fieldsTerm, parse_render id hid, parse_render r (hrepl r rfl), kTrue]
+  have hisa : isaParents (stanzaLines id name obs repl parents extras1 extras2) = .ok (parents.map (·.1)) := by
+    unfold stanzaLines
+    rw [isaParents_skip _ (by
+      intro e he
+      rcases List.mem_cons.1 he with rfl | he
+      · exact isaOk_kId
+      rcases List.mem_cons.1 he with rfl | he
+      · exact isaOk_kName
+      · exact neutral_isa _ (hn1 e he))]
+    rw [isaParents_isa parents hpar, isaParents_pairs_nil _ (by
+      intro e he
+      simp only [tailPairs, List.mem_append] at he
+      rcases he with he | he | he
+      · cases obs <;> simp at he
+        subst he; exact isaOk_kObsolete
+      · cases repl <;> simp at he
+        subst he; exact isaOk_kReplaced
+      · exact neutral_isa _ (hn2 e he))]
+    simp [Res.bind]
+  unfold parseBlock renderStanza
+  rw [stripPrefix_append]
+  simp only [hlines, hterm, hisa, Res.bind]
+
+/-! ### other blocks, the header block -/
+
+theorem parseBlock_other (b : List Char) (h1 : stripPrefix termPrefix b = none)
+    (h2 : startsWith formatPrefix b = false) : parseBlock b = .ok .other := by
+  simp [parseBlock, h1, h2]
+
+theorem utf8Size_digitChar (k : Nat) : (TermId.digitChar k).utf8Size = 1 := by
+  have h : k % 10 < 10 := Nat.mod_lt _ (by decide)
+  unfold TermId.digitChar
+  generalize k % 10 = m at h ⊢
+  match m, h with
+  | 0, _ => decide
+  | 1, _ => decide
+  | 2, _ => decide
+  | 3, _ => decide
+  | 4, _ => decide
+  | 5, _ => decide
+  | 6, _ => decide
+  | 7, _ => decide
+  | 8, _ => decide
+  | 9, _ => decide
+
+/-- `YYYY-MM-DD` from its eight digits -/
+def dateText (y1 y2 y3 y4 m1 m2 d1 d2 : Nat) : List Char :=
+  [TermId.digitChar y1, TermId.digitChar y2, TermId.digitChar y3, TermId.digitChar y4, '-',
+   TermId.digitChar m1, TermId.digitChar m2, '-', TermId.digitChar d1, TermId.digitChar d2]
+
+def versionLine (y1 y2 y3 y4 m1 m2 d1 d2 : Nat) : List Char :=
+  versionPrefix ++ dateText y1 y2 y3 y4 m1 m2 d1 d2
+
+theorem digitsVal_cons_digit (a : Nat) (ha : a < 10) (rest : List Char) (acc : Nat) :
+    TermId.digitsVal (TermId.digitChar a :: rest) acc = TermId.digitsVal rest (acc * 10 + a) := by
+  simp [TermId.digitsVal, TermId.digitVal_digitChar, Nat.mod_eq_of_lt ha]
+
+theorem stripPlus_digit (a : Nat) (rest : List Char) :
+    TermId.stripPlus (TermId.digitChar a :: rest) = TermId.digitChar a :: rest := by
+  unfold TermId.stripPlus
+  split
+  · rename_i r hr
+    have : TermId.digitChar a = '+' := by injection hr
+    exact absurd this (TermId.digitChar_ne_plus a)
+  · rfl
+
+theorem parseUnsigned_4 (bound a b c d : Nat) (ha : a < 10) (hb : b < 10) (hc : c < 10) (hd : d < 10)
+    (h : 1000 * a + 100 * b + 10 * c + d < bound) :
+    parseUnsigned bound [TermId.digitChar a, TermId.digitChar b, TermId.digitChar c, TermId.digitChar d]
+      = some (1000 * a + 100 * b + 10 * c + d) := by
+  unfold parseUnsigned
+  rw [stripPlus_digit]
+  rw [digitsVal_cons_digit _ ha, digitsVal_cons_digit _ hb, digitsVal_cons_digit _ hc,
+    digitsVal_cons_digit _ hd]
+  have e : (((0 * 10 + a) * 10 + b) * 10 + c) * 10 + d = 1000 * a + 100 * b + 10 * c + d := by omega
+  simp only [List.isEmpty_cons, Bool.false_eq_true, if_false, TermId.digitsVal, e, if_pos h]
+
+theorem parseUnsigned_2 (bound a b : Nat) (ha : a < 10) (hb : b < 10) (h : 10 * a + b < bound) :
+    parseUnsigned bound [TermId.digitChar a, TermId.digitChar b] = some (10 * a + b) := by
+  unfold parseUnsigned
+  rw [stripPlus_digit]
+  rw [digitsVal_cons_digit _ ha, digitsVal_cons_digit _ hb]
+  have e : (0 * 10 + a) * 10 + b = 10 * a + b := by omega
+  simp only [List.isEmpty_cons, Bool.false_eq_true, if_false, TermId.digitsVal, e, if_pos h]
+
+/-- the `data-version: hp/releases/YYYY-MM-DD` line yields (YYYY, MM, DD) -/
+theorem versionOfLine_date (y1 y2 y3 y4 m1 m2 d1 d2 : Nat) (hy1 : y1 < 10) (hy2 : y2 < 10)
+    (hy3 : y3 < 10) (hy4 : y4 < 10) (hm1 : m1 < 10) (hm2 : m2 < 10) (hd1 : d1 < 10) (hd2 : d2 < 10) :
+    versionOfLine (versionLine y1 y2 y3 y4 m1 m2 d1 d2) =
+      .ok (some (1000 * y1 + 100 * y2 + 10 * y3 + y4, 10 * m1 + m2, 10 * d1 + d2)) := by
+  unfold versionOfLine versionLine
+  rw [stripPrefix_append]
+  have hdash : Char.utf8Size '-' = 1 := by decide
+  have hlen : TermId.byteLen (dateText y1 y2 y3 y4 m1 m2 d1 d2) = 10 := by
+    simp [TermId.byteLen, dateText, utf8Size_digitChar, hdash]
+  have s1 : sliceBytes 0 4 (dateText y1 y2 y3 y4 m1 m2 d1 d2) =
+      some [TermId.digitChar y1, TermId.digitChar y2, TermId.digitChar y3, TermId.digitChar y4] := by
+    simp [sliceBytes, dateText, TermId.dropBytes, takeBytes, utf8Size_digitChar]
+  have s2 : sliceBytes 5 7 (dateText y1 y2 y3 y4 m1 m2 d1 d2) =
+      some [TermId.digitChar m1, TermId.digitChar m2] := by
+    simp [sliceBytes, dateText, TermId.dropBytes, takeBytes, utf8Size_digitChar, hdash]
+  have s3 : sliceBytes 8 10 (dateText y1 y2 y3 y4 m1 m2 d1 d2) =
+      some [TermId.digitChar d1, TermId.digitChar d2] := by
+    simp [sliceBytes, dateText, TermId.dropBytes, takeBytes, utf8Size_digitChar, hdash]
+  simp only [hlen, if_true, s1, s2, s3]
+  rw [parseUnsigned_4 65536 y1 y2 y3 y4 hy1 hy2 hy3 hy4 (by omega),
+    parseUnsigned_2 256 m1 m2 hm1 hm2 (by omega), parseUnsigned_2 256 d1 d2 hd1 hd2 (by omega)]
+  rfl
+
+theorem versionFromLines_skip (pre : List (List Char)) (h : ∀ l ∈ pre, stripPrefix versionPrefix l = none)
+    (ls : List (List Char)) : versionFromLines (pre ++ ls) = versionFromLines ls := by
+  induction pre with
+  | nil => rfl
+  | cons l r ih =>
+    simp only [List.cons_append, versionFromLines, versionOfLine, h l (by simp)]
+    exact ih (fun x hx => h x (by simp [hx]))
+
+/-- the header block: `format-version: 1.2`, other header lines, the data-version line, more lines -/
+def headerLines (pre post : List (List Char)) (y1 y2 y3 y4 m1 m2 d1 d2 : Nat) : List (List Char) :=
+  (formatPrefix :: pre) ++ versionLine y1 y2 y3 y4 m1 m2 d1 d2 :: post
+
+theorem joinWith_cons_startsWith (c : Char) (f : List Char) (r : List (List Char)) :
+    startsWith f (joinWith c (f :: r)) = true := by
+  cases r with
+  | nil => simpa [joinWith] using startsWith_append f []
+  | cons g r' => rw [joinWith_cons_cons]; exact startsWith_append f _
+
+theorem joinWith_cons_stripPrefix_none (c : Char) (p f : List Char) (r : List (List Char)) (x y : Char)
+    (p' f' : List Char) (hp : p = x :: p') (hf : f = y :: f') (hxy : x ≠ y) :
+    stripPrefix p (joinWith c (f :: r)) = none := by
+  subst hp hf
+  cases r with
+  | nil => simp [joinWith, stripPrefix, hxy]
+  | cons g r' => rw [joinWith_cons_cons]; simp [stripPrefix, hxy]
+
+theorem parseBlock_header (pre post : List (List Char)) (y1 y2 y3 y4 m1 m2 d1 d2 : Nat)
+    (hy1 : y1 < 10) (hy2 : y2 < 10) (hy3 : y3 < 10) (hy4 : y4 < 10) (hm1 : m1 < 10) (hm2 : m2 < 10)
+    (hd1 : d1 < 10) (hd2 : d2 < 10)
+    (hpre : ∀ l ∈ pre, stripPrefix versionPrefix l = none)
+    (hok : ∀ l ∈ pre ++ post, LineOk l) :
+    parseBlock (joinWith '\n' (headerLines pre post y1 y2 y3 y4 m1 m2 d1 d2)) =
+      .ok (.header (1000 * y1 + 100 * y2 + 10 * y3 + y4, 10 * m1 + m2, 10 * d1 + d2)) := by
+  have hvl : LineOk (versionLine y1 y2 y3 y4 m1 m2 d1 d2) := by
+    have hd : ∀ k, TermId.digitChar k ≠ '\n' ∧ TermId.digitChar k ≠ '\r' := fun k =>
+      ⟨digitVal_none_ne k '\n' nl_digitVal, digitVal_none_ne k '\r' cr_digitVal⟩
+    refine ⟨?_, ?_, by simp [versionLine, versionPrefix]⟩
+    · simp [versionLine, versionPrefix, dateText, fun k => ((hd k).1).symm]
+    · simp [versionLine, versionPrefix, dateText, fun k => ((hd k).2).symm]
+  have hlines : lines (joinWith '\n' (headerLines pre post y1 y2 y3 y4 m1 m2 d1 d2)) =
+      headerLines pre post y1 y2 y3 y4 m1 m2 d1 d2 := by
+    refine lines_joinWith _ (by simp [headerLines]) ?_
+    intro l hl
+    simp only [headerLines, List.cons_append, List.mem_cons, List.mem_append] at hl
+    rcases hl with rfl | hl | rfl | hl
+    · exact ⟨by decide, by decide, by decide⟩
+    · exact hok l (by simp [hl])
+    · exact hvl
+    · exact hok l (by simp [hl])
+  unfold parseBlock
+  have h1 : stripPrefix termPrefix (joinWith '\n' (headerLines pre post y1 y2 y3 y4 m1 m2 d1 d2)) = none :=
+    joinWith_cons_stripPrefix_none '\n' termPrefix formatPrefix _ '[' 'f' _ _ rfl rfl (by decide)
+  have h2 : startsWith formatPrefix (joinWith '\n' (headerLines pre post y1 y2 y3 y4 m1 m2 d1 d2)) = true :=
+    joinWith_cons_startsWith '\n' formatPrefix _
+  rw [h1]
+  simp only [h2, if_true, hlines]
+  have hv : versionFromLines (headerLines pre post y1 y2 y3 y4 m1 m2 d1 d2) =
+      .ok (some (1000 * y1 + 100 * y2 + 10 * y3 + y4, 10 * m1 + m2, 10 * d1 + d2)) := by
+    unfold headerLines
+    rw [versionFromLines_skip (formatPrefix :: pre) (by
+      intro l hl
+      rcases List.mem_cons.1 hl with rfl | hl
+      · decide
+      · exact hpre l hl)]
+    simp only [versionFromLines, versionOfLine_date y1 y2 y3 y4 m1 m2 d1 d2 hy1 hy2 hy3 hy4 hm1 hm2 hd1 hd2]
+  rw [hv]; rfl
+
 end Text
 end Hpo
